@@ -1,40 +1,64 @@
 (** C13 — Parsing with a format string inverts formatting with it.
-    Property theorems only: each is closed by [exact] of a lemma from Proofs/C13.v and followed by
-    [Print Assumptions].  The reader is the line-by-line model Model/Parse.v of
-    src/format/parse.rs [parse_internal]; [parse_item relaxed p s it] is one iteration of its loop on
-    item [it] with field record [p] and remaining input [s] ([relaxed] = the callee of the RFC3339 arm). *)
+    Theorem-only file: each statement is closed by [exact] of a lemma of Proofs/C13*.v and followed
+    by [Print Assumptions].
+
+    Vocabulary.  The reader is Model/Parse.v, the line-by-line model of src/format/parse.rs:
+    [parse_item relaxed p s it] is one iteration of parse_internal's loop on item [it] with field
+    record [p] and remaining input [s]; [parse_items] the loop, [parse] / [parse_and_remainder] the
+    two public entry points over an item list.  The formatter is Model/Format.v ([format_item],
+    [write_items]).  [PR] is a ParseResult that may also trap; [pok]/[perr_] its values.
+    [write] is the field write an item performs ([W_code c v] = the setter number [c] of the
+    reader's Numeric table applied to [v], [W_weekday], [W_ampm], [W_none]); [run_writes] performs a
+    list of writes in order through the real setters of Model/Parsed.v.
+    [item_reads relaxed it t rest e]: for every field record, item [it] applied to [t ++ rest]
+    consumes exactly [t] and has effect [e].
+    [reads_b it t rest] is the computable recogniser "text [t] is a rendering of [it] that the reader
+    takes back exactly in front of [rest]" (padding, sign, digits and the width / follow condition
+    for numeric items; names in any letter case; AM/PM; the fraction forms; +hhmm / +hh:mm);
+    [unambiguous_b] chains it over an item list, [unambiguous_ws_b] additionally lets white space of
+    the format take the space padding of the next field, [family_member a items tail] renders every
+    item of [items] for the value [a] with the formatter and runs [unambiguous_ws_b]. *)
 From Coq Require Import ZArith List Bool.
-From V Require Import Base.Int Base.IO Base.Utf8 Model.Scan Model.Items Model.Parse Proofs.Utf8 Proofs.Scan Proofs.C13.
-From V Require Model.Parsed.
+From V Require Import Base.Int Base.IO Base.Utf8 Model.Scan Model.Items Model.Parse
+  Proofs.Utf8 Proofs.Scan Proofs.C13 Proofs.C13Reads Proofs.C13Fmt Proofs.C13Examples.
+From V Require Model.Parsed Model.Format.
 Import ListNotations.
 Open Scope Z_scope.
 
-(* literal text is consumed exactly, whatever follows *)
+(** ** item_inverse, item kind by item kind *)
+(* literal text is consumed exactly, whatever follows; a literal that is not there is refused *)
 Theorem C13_literal_inverse : forall relaxed p l rest, starts_ok rest = true ->
   parse_item relaxed p (l ++ rest) (Literal l) = pok (p, rest).
 Proof. exact parse_literal_inverse. Qed.
 Print Assumptions C13_literal_inverse.
 
-(* white space in the format accepts any amount of (ASCII) white space in the text *)
+Theorem C13_literal_mismatch_refused : forall relaxed p l s,
+  strip_prefix l s = None -> exists e, parse_item relaxed p s (Literal l) = perr_ e.
+Proof. exact parse_literal_mismatch. Qed.
+Print Assumptions C13_literal_mismatch_refused.
+
+(* white space in the format accepts any amount of (ASCII) white space in the text: surplus white
+   space wherever the format has white space *)
 Theorem C13_space_inverse : forall relaxed p fmt_ws ws rest,
   ascii_ws ws -> first_cp_fails is_whitespace rest ->
   parse_item relaxed p (ws ++ rest) (Space fmt_ws) = pok (p, rest).
 Proof. exact parse_space_inverse. Qed.
 Print Assumptions C13_space_inverse.
 
-(* an unsigned numeric field: padding, then at most [width] digits, follow condition when shorter *)
-Theorem C13_numeric_unsigned_inverse : forall p spec width code pad ds rest,
-  numeric_entry spec = Some (width, false, code) ->
+(* a numeric field printed without a sign: any padding modifier (none / zeros are digits / spaces),
+   at most [width] digits, and when fewer are printed the rest must not start with a digit *)
+Theorem C13_numeric_nosign_inverse : forall p spec width (signed : bool) code pad ds rest,
+  numeric_entry spec = Some (width, signed, code) ->
   ascii_ws pad ->
   forallb is_ascii_digit ds = true -> 1 <= blen ds <= width ->
   (blen ds < width -> not_digit_start rest = true) ->
   utf8_valid rest = true -> digits_value ds 0 <= i64_max ->
   parse_numeric p (pad ++ ds ++ rest) spec =
   (let+ p' := set_by_code code p (digits_value ds 0) in pok (p', rest)).
-Proof. exact parse_numeric_unsigned. Qed.
-Print Assumptions C13_numeric_unsigned_inverse.
+Proof. exact parse_numeric_nosign. Qed.
+Print Assumptions C13_numeric_nosign_inverse.
 
-(* a signed field printed with its sign *)
+(* a signed field (year, ISO year, timestamp) printed with its sign: signed and five-digit years *)
 Theorem C13_numeric_signed_inverse : forall p spec width code pad (neg : bool) ds rest,
   numeric_entry spec = Some (width, true, code) ->
   ascii_ws pad ->
@@ -45,3 +69,108 @@ Theorem C13_numeric_signed_inverse : forall p spec width code pad (neg : bool) d
   (let+ p' := set_by_code code p (if neg then - digits_value ds 0 else digits_value ds 0) in pok (p', rest)).
 Proof. exact parse_numeric_signed. Qed.
 Print Assumptions C13_numeric_signed_inverse.
+
+(* the reader's width / sign / setter table, entry by entry (regenerated from parse.rs on every run);
+   the Timestamp entry is signed: the repaired code *)
+Theorem C13_numeric_table : forall spec, numeric_entry spec = Some (numeric_table_expected spec).
+Proof. exact numeric_table. Qed.
+Print Assumptions C13_numeric_table.
+
+(* %s reads back the negative timestamps it prints (refuted on the code before /repo f453be6,
+   where the entry was unsigned and "-1" gave Err(Invalid)) *)
+Theorem C13_timestamp_negative_inverse : forall p pad ds rest,
+  ascii_ws pad -> forallb is_ascii_digit ds = true -> 1 <= blen ds <= u64_max ->
+  not_digit_start rest = true -> utf8_valid rest = true -> digits_value ds 0 <= i64_max ->
+  parse_numeric p (pad ++ 45 :: ds ++ rest) N_Timestamp =
+  (let+ p' := setq (Model.Parsed.set_timestamp p (- digits_value ds 0)) in pok (p', rest)).
+Proof. exact timestamp_negative_inverse. Qed.
+Print Assumptions C13_timestamp_negative_inverse.
+
+Example C13_timestamp_minus_one :
+  parse Model.Parsed.parsed_new [45; 49] [INumeric N_Timestamp PadNone] =
+  setq (Model.Parsed.set_timestamp Model.Parsed.parsed_new (-1)).
+Proof. exact timestamp_minus_one. Qed.
+Print Assumptions C13_timestamp_minus_one.
+
+(* the two printed offset forms +hhmm and +hh:mm, for every flag combination of the offset items *)
+Theorem C13_offset_inverse : forall sg h1 h2 sep m1 m2 rest az am ams,
+  (sg = 43 \/ sg = 45) -> (sep = [] \/ sep = [58]) ->
+  is_ascii_digit h1 = true -> is_ascii_digit h2 = true ->
+  48 <= m1 <= 53 -> is_ascii_digit m2 = true -> utf8_valid rest = true ->
+  timezone_offset (sg :: h1 :: h2 :: sep ++ m1 :: m2 :: rest) colon_or_space az am ams =
+  pok (rest, off_value (sg =? 45) h1 h2 m1 m2).
+Proof. exact timezone_offset_printed. Qed.
+Print Assumptions C13_offset_inverse.
+
+(* item_inverse for every invertible item kind at once: whatever [reads_b] accepts, the reader
+   consumes exactly and performs exactly the recognised write (Literal, Space, every Numeric item
+   signed or not, short / long month and weekday names in any case, AM/PM in any case, %.f %.3f
+   %.6f %.9f, %3f %6f %9f, %z %:z and the other offset items) *)
+Theorem C13_item_inverse : forall relaxed it t rest w,
+  reads_b it t rest = Some w -> item_reads relaxed it t rest (eff_of w).
+Proof. exact reads_b_sound. Qed.
+Print Assumptions C13_item_inverse.
+
+(** ** composition: the decision procedure is sound for the whole loop *)
+Theorem C13_unambiguous_sound : forall relaxed l tail ws, unambiguous_b l tail = Some ws ->
+  forall p, parse_items relaxed p (text_of l ++ tail) (map fst l) =
+            (let+ p' := run_writes ws p in pok (p', tail)).
+Proof. exact unambiguous_sound. Qed.
+Print Assumptions C13_unambiguous_sound.
+
+Theorem C13_unambiguous_ws_sound : forall relaxed l tail ws, unambiguous_ws_b l tail = Some ws ->
+  forall p, parse_items relaxed p (text_of l ++ tail) (map fst l) =
+            (let+ p' := run_writes ws p in pok (p', tail)).
+Proof. exact unambiguous_ws_sound. Qed.
+Print Assumptions C13_unambiguous_ws_sound.
+
+(** ** format_parse_roundtrip.  PARTIAL: the statement goes from the formatter's output to the
+    field record the reader builds ([run_writes ws p], the recognised writes applied through the
+    real setters).  Missing for the full statement `= Ok (trunc_to_precision items v)`:
+    (i) that the recognised writes carry the fields of the value (C12's render_item_spec gives the
+    printed numbers; not linked here), (ii) that Parsed resolution of those fields returns the value
+    (C14's resolve_complete), (iii) RFC2822 / RFC3339 / TimezoneName items are not recognised by
+    [reads_b].  The end-to-end statement is checked by computation on boundary values
+    (C13_roundtrips_hold) and by the correspondence run with the independent judge. *)
+Theorem C13_format_parse_roundtrip_partial : forall a items texts ws p,
+  Forall2 (renders a) items texts ->
+  unambiguous_ws_b (combine items texts) [] = Some ws ->
+  Model.Format.write_items a items [] = Model.Format.fok (List.concat texts) /\
+  parse p (List.concat texts) items = run_writes ws p.
+Proof. exact format_parse_partial. Qed.
+Print Assumptions C13_format_parse_roundtrip_partial.
+
+Theorem C13_format_parse_remainder_partial : forall a items texts tail ws p,
+  Forall2 (renders a) items texts ->
+  unambiguous_ws_b (combine items texts) tail = Some ws ->
+  parse_and_remainder p (List.concat texts ++ tail) items = (let+ p' := run_writes ws p in pok (p', tail)).
+Proof. exact format_parse_remainder_partial. Qed.
+Print Assumptions C13_format_parse_remainder_partial.
+
+(* family membership is decided by computation and certifies the round trip of that member *)
+Theorem C13_family_member_sound : forall a items ws p, family_member a items [] = Some ws ->
+  exists text, Model.Format.write_items a items [] = Model.Format.fok text /\
+               parse p text items = run_writes ws p.
+Proof. exact family_member_sound. Qed.
+Print Assumptions C13_family_member_sound.
+
+(* on a member of the family the reader does not trap (slice safety on the formatted text) *)
+Theorem C13_family_never_panics_partial : forall l tail ws p, unambiguous_b l tail = Some ws ->
+  run_writes ws p <> Panic -> run_writes ws p <> OutOfFuel ->
+  parse_and_remainder p (text_of l ++ tail) (map fst l) <> Panic /\
+  parse_and_remainder p (text_of l ++ tail) (map fst l) <> OutOfFuel.
+Proof. exact unambiguous_never_panics. Qed.
+Print Assumptions C13_family_never_panics_partial.
+
+(** ** hypotheses are inhabited: members certified by computation, non-members rejected, complete
+    round trips (formatter, reader, resolution) on boundary values incl. negative and six-digit
+    years, leap seconds, pivot years, ISO weeks, negative timestamps *)
+Example C13_members_certified : forallb ex_member members = true.
+Proof. exact members_certified. Qed.
+Print Assumptions C13_members_certified.
+Example C13_non_members_rejected : forallb (fun c => negb (ex_member c)) non_members = true.
+Proof. exact non_members_rejected. Qed.
+Print Assumptions C13_non_members_rejected.
+Example C13_roundtrips_hold : forallb ex_roundtrip roundtrips = true.
+Proof. exact roundtrips_hold. Qed.
+Print Assumptions C13_roundtrips_hold.
